@@ -6,10 +6,10 @@ WT=$(mktemp -d /tmp/confirm.XXXX); rmdir $WT
 git -C /repo worktree add -q --detach $WT HEAD || exit 2
 trap "git -C /repo worktree remove --force $WT" EXIT
 cd $WT
-g++ -std=c++17 -O1 -I $WT/include $S/demo.cpp -o $WT/demo_pristine $LIBS 2>$WT/err.txt || { echo "demo does not compile on pristine"; cat $WT/err.txt | head; exit 2; }
+${CXX:-g++} -std=c++17 -O1 -I $WT/include $S/demo.cpp -o $WT/demo_pristine $LIBS 2>$WT/err.txt || { echo "demo does not compile on pristine"; cat $WT/err.txt | head; exit 2; }
 ./demo_pristine >/dev/null 2>&1; P=$?
 git apply $S/patch.diff || { echo "patch does not apply"; exit 2; }
-g++ -std=c++17 -O1 -I $WT/include $S/demo.cpp -o $WT/demo_patched $LIBS 2>$WT/err.txt || { echo "demo does not compile with patch"; exit 2; }
+${CXX:-g++} -std=c++17 -O1 -I $WT/include $S/demo.cpp -o $WT/demo_patched $LIBS 2>$WT/err.txt || { echo "demo does not compile with patch"; exit 2; }
 timeout 60 ./demo_patched >/dev/null 2>&1; Q=$?
 cmake -G Ninja -S . -B _build -DCMAKE_BUILD_TYPE=RelWithDebInfo -DCMAKE_CXX_FLAGS=-Wno-error >/dev/null 2>&1
 cmake --build _build -j16 > build.log 2>&1; B=$?
